@@ -1,5 +1,190 @@
 import Asn1Verif.Base.Text
-/- line protocol, stream `der` — not implemented yet -/
+import Asn1Verif.Der.Basic
+/- line protocol, stream `der` (C20): the model's answers to the requests of `harness/src/der.rs` -/
 namespace Driver.DerStream
-def handle (_args : List String) : String := "bad-op"
+open Asn1Verif Asn1Verif.Der Asn1Verif.Text
+
+def parseClass (s : String) : Option TagClass :=
+  if s = "u" then some .universal
+  else if s = "a" then some .application
+  else if s = "c" then some .contextSpecific
+  else if s = "p" then some .private_
+  else none
+
+def classStr : TagClass → String
+  | .universal => "u"
+  | .application => "a"
+  | .contextSpecific => "c"
+  | .private_ => "p"
+
+def tagStr (t : Tag) : String := classStr t.cls ++ ":" ++ toString t.number
+
+/-- `u64`/`usize` token -/
+def parseU64 (s : String) : Option Nat := do
+  let n ← parseNat s
+  if n < 2 ^ 64 then some n else none
+
+def parseU32 (s : String) : Option Nat := do
+  let n ← parseNat s
+  if n < 2 ^ 32 then some n else none
+
+def parseI64 (s : String) : Option Int := do
+  let i ← parseInt s
+  if inI64 i then some i else none
+
+def parseTag (k n : String) : Option Tag := do
+  let c ← parseClass k
+  let n ← parseU64 n
+  pure ⟨c, n⟩
+
+def parseNumTy (s : String) : Option NumTy :=
+  if s = "u8" then some ⟨false, 8⟩ else if s = "u16" then some ⟨false, 16⟩
+  else if s = "u32" then some ⟨false, 32⟩ else if s = "u64" then some ⟨false, 64⟩
+  else if s = "i8" then some ⟨true, 8⟩ else if s = "i16" then some ⟨true, 16⟩
+  else if s = "i32" then some ⟨true, 32⟩ else if s = "i64" then some ⟨true, 64⟩
+  else none
+
+/-- tag numbers for which the harness has a type-level constraint (`with_tag!` in der.rs) -/
+def typeLevelNumbers : List Nat := [0, 1, 2, 10, 30, 31, 63, 64, 300]
+
+def parseTypeLevelTag (k n : String) : Option Tag := do
+  let t ← parseTag k n
+  if typeLevelNumbers.contains t.number then some t else none
+
+/-- enumerations of the harness (`with_enum!` in der.rs) -/
+def enumCounts : List Nat :=
+  [1, 2, 3, 127, 128, 129, 255, 256, 257, 65536, 4294967297, 9223372036854775809,
+   18446744073709551615]
+
+def enumTags : List Tag :=
+  [⟨.universal, 10⟩, ⟨.application, 31⟩, ⟨.contextSpecific, 0⟩, ⟨.private_, 63⟩, ⟨.universal, 64⟩]
+
+def parseEnum (count k n : String) : Option (Nat × Tag) := do
+  let c ← parseU64 count
+  let t ← parseTag k n
+  if enumCounts.contains c ∧ enumTags.contains t then some (c, t) else none
+
+/-- the enumerations `asn_to_rust!` generates in der.rs: tag and variant count (the harness
+    reports the compiled constants under `ginfo`, so the table is checked on every run) -/
+def generatedEnum (which : String) : Option (Tag × Nat) :=
+  if which = "small" then some (⟨.universal, 10⟩, 3)
+  else if which = "tagged" then some (⟨.application, 5⟩, 5)
+  else if which = "big" then some (⟨.universal, 10⟩, 260)
+  else none
+
+/-- answer of a round-trip request: the writer's bytes, then what the reader made of
+    `written ++ post` -/
+def rtAnswer {α : Type} (show_ : α → String) (post : List Byte) (written : Outcome (List Byte))
+    (read : List Byte → Outcome (α × List Byte)) : String :=
+  match written with
+  | .panic => "panic"
+  | .err k => "err " ++ toString k
+  | .ok w =>
+    let all := w ++ post
+    match read all with
+    | .panic => "panic"
+    | .err k => "ok " ++ bytesToHex w ++ " err:" ++ toString k
+    | .ok (v, rest) =>
+      "ok " ++ bytesToHex w ++ " " ++ show_ v ++ " " ++ toString (all.length - rest.length)
+
+/-- answer of a hostile-read request -/
+def rdAnswer {α : Type} (show_ : α → String) (inp : List Byte)
+    (r : Outcome (α × List Byte)) : String :=
+  match r with
+  | .panic => "panic"
+  | .err k => "err " ++ toString k
+  | .ok (v, rest) => "ok " ++ show_ v ++ " " ++ toString (inp.length - rest.length)
+
+def natStr (n : Nat) : String := toString n
+def intStr (i : Int) : String := toString i
+
+def handle (args : List String) : String :=
+  match args with
+  | ["len", n, post] =>
+    match parseU64 n, hexToBytes post with
+    | some n, some post => rtAnswer natStr post (writeLengthC n) readLength
+    | _, _ => "bad-op"
+  | ["rlen", h] =>
+    match hexToBytes h with
+    | some bs => rdAnswer natStr bs (readLength bs)
+    | none => "bad-op"
+  | ["id", k, n, post] =>
+    match parseTag k n, hexToBytes post with
+    | some t, some post => rtAnswer tagStr post (.ok (writeIdentifier t)) readIdentifier
+    | _, _ => "bad-op"
+  | ["rid", h] =>
+    match hexToBytes h with
+    | some bs => rdAnswer tagStr bs (readIdentifier bs)
+    | none => "bad-op"
+  | ["bool", v, post] =>
+    match parseBool v, hexToBytes post with
+    | some v, some post => rtAnswer boolStr post (.ok (writeBoolean v)) readBoolean
+    | _, _ => "bad-op"
+  | ["rbool", h] =>
+    match hexToBytes h with
+    | some bs => rdAnswer boolStr bs (readBoolean bs)
+    | none => "bad-op"
+  | ["i64", v, post] =>
+    match parseI64 v, hexToBytes post with
+    | some v, some post =>
+      let w := writeIntegerI64 v
+      rtAnswer intStr post (.ok w) (readIntegerI64 w.length)
+    | _, _ => "bad-op"
+  | ["u64", v, post] =>
+    match parseU64 v, hexToBytes post with
+    | some v, some post =>
+      let w := writeIntegerU64 v
+      rtAnswer natStr post (.ok w) (readIntegerU64 w.length)
+    | _, _ => "bad-op"
+  | ["ri64", bl, h] =>
+    match parseU32 bl, hexToBytes h with
+    | some bl, some bs => rdAnswer intStr bs (readIntegerI64 bl bs)
+    | _, _ => "bad-op"
+  | ["ru64", bl, h] =>
+    match parseU32 bl, hexToBytes h with
+    | some bl, some bs => rdAnswer natStr bs (readIntegerU64 bl bs)
+    | _, _ => "bad-op"
+  | ["number", ty, k, n, v, post] =>
+    match parseNumTy ty, parseTypeLevelTag k n, parseInt v, hexToBytes post with
+    | some ty, some t, some v, some post =>
+      if ty.InRange v then rtAnswer intStr post (writeNumberC ty t v) (readNumber ty t)
+      else "bad-op"
+    | _, _, _, _ => "bad-op"
+  | ["rnumber", ty, k, n, h] =>
+    match parseNumTy ty, parseTypeLevelTag k n, hexToBytes h with
+    | some ty, some t, some bs => rdAnswer intStr bs (readNumber ty t bs)
+    | _, _, _ => "bad-op"
+  | ["boolean", k, n, v, post] =>
+    match parseTypeLevelTag k n, parseBool v, hexToBytes post with
+    | some t, some v, some post =>
+      rtAnswer boolStr post (.ok (writeBooleanTlv t v)) (readBooleanTlv t)
+    | _, _, _ => "bad-op"
+  | ["rboolean", k, n, h] =>
+    match parseTypeLevelTag k n, hexToBytes h with
+    | some t, some bs => rdAnswer boolStr bs (readBooleanTlv t bs)
+    | _, _ => "bad-op"
+  | ["enum", count, k, n, index, post] =>
+    match parseEnum count k n, parseU64 index, hexToBytes post with
+    | some (c, t), some i, some post =>
+      if i < c then rtAnswer natStr post (writeEnumeratedC t i) (readEnumerated t c) else "bad-op"
+    | _, _, _ => "bad-op"
+  | ["renum", count, k, n, h] =>
+    match parseEnum count k n, hexToBytes h with
+    | some (c, t), some bs => rdAnswer natStr bs (readEnumerated t c bs)
+    | _, _ => "bad-op"
+  | ["genum", which, index, post] =>
+    match generatedEnum which, parseU64 index, hexToBytes post with
+    | some (t, c), some i, some post =>
+      if i < c then rtAnswer natStr post (writeEnumeratedC t i) (readEnumerated t c) else "bad-op"
+    | _, _, _ => "bad-op"
+  | ["rgenum", which, h] =>
+    match generatedEnum which, hexToBytes h with
+    | some (t, c), some bs => rdAnswer natStr bs (readEnumerated t c bs)
+    | _, _ => "bad-op"
+  | ["ginfo", which] =>
+    match generatedEnum which with
+    | some (t, c) => "ok " ++ tagStr t ++ " " ++ toString c
+    | none => "bad-op"
+  | _ => "bad-op"
+
 end Driver.DerStream
